@@ -96,10 +96,11 @@ theorem C02_legacy_crc_witness :
 /-- THE SDK READS WHAT IT WROTE: with checksum verification on, `Decode` accepts every successful encode of
 a chain and returns one sequence per FIT value whose header data size is the exact record byte count. -/
 theorem C02_decodes (tsKnown : Nat → Bool) (o : Opts) (ho : OptsOK o)
-    (fits : List (Hdr × List WMsg)) (hne : fits ≠ []) (hall : ∀ f ∈ fits, FitOK o f.1 f.2) :
+    (fits : List (Hdr × List WMsg)) (hne : fits ≠ []) (hall : ∀ f ∈ fits, FitOK o f.1 f.2)
+    (hdesc : ∀ f ∈ fits, msgsDescOK [] f.2 = true) :
     ∃ evs, decodeStream tsKnown true (fits.length + 1) true (encodeChain o fits) = (evs, none) ∧
       (seqsOf evs).length = fits.length ∧ AllMatch (FitMatches o) fits (seqsOf evs) := by
-  obtain ⟨evs, h1, h2⟩ := decodeStream_encodeChain tsKnown true o ho fits hall true (fun _ => hne) _ (Nat.lt_succ_self _)
+  obtain ⟨evs, h1, h2⟩ := decodeStream_encodeChain tsKnown true o ho fits hall hdesc true (fun _ => hne) _ (Nat.lt_succ_self _)
   exact ⟨evs, h1, h2.length_eq.symm, h2⟩
 
 end Fit.C02
